@@ -124,6 +124,12 @@ theorem mii_pos (gz k0 : ℝ) (h : 0 < 1 + gz / k0) : 0 < mii gz k0 := by
   unfold mii
   exact div_pos one_pos (Real.sqrt_pos.mpr h)
 
+/-- closed form of `calculate_M_matrix` with the generated `k0 = 1/λ`: `M = 1/√(1 + g_z λ)` -/
+theorem mii_formula (gz lam : ℝ) : mii gz (k0Of lam) = 1 / Real.sqrt (1 + gz * lam) := by
+  unfold mii k0Of
+  congr 2
+  field_simp
+
 /-- reflections in the zero-order Laue zone (`g_z = 0`) have `M = 1` -/
 theorem mii_zolz (k0 : ℝ) : mii 0 k0 = 1 := by
   simp [mii]
@@ -318,6 +324,45 @@ theorem structure_matrix_flux_conserved (U : (Fin 3 → ℤ) → ℂ) (hU : ∀ 
       ∀ (t : ℝ) (ψ0 : n → ℂ), wsum M (scatter M v C lam t ψ0) = wsum M ψ0 ∧ scatter M v C lam 0 ψ0 = ψ0 := by
   obtain ⟨v, C, h⟩ := eigh_exists _ (structure_matrix_isHermitian U hU hkl pref lam M sg)
   exact ⟨v, C, h, fun t ψ0 => ⟨weighted_intensity_conserved M hM _ v C h lam t ψ0, zero_thickness_direct_beam M hM _ v C h lam ψ0⟩⟩
+
+/-! ### witness of the recorded deviation on the modelled code path -/
+
+/-- the rational orthogonal matrix (1/5)·[[3,4],[4,-3]] -/
+noncomputable def Cw : Matrix (Fin 2) (Fin 2) ℂ := !![3/5, 4/5; 4/5, -3/5]
+
+lemma Cw_conj : Cwᴴ = Cw := by
+  ext i j; fin_cases i <;> fin_cases j <;> simp [Cw, conjTranspose_apply]
+
+lemma Cw_sq : Cw * Cw = 1 := by
+  ext i j; fin_cases i <;> fin_cases j <;> simp [Cw, Matrix.mul_apply, Fin.sum_univ_two] <;> norm_num
+
+/-- **Witness of the recorded deviation, on the modelled code path**: a two-beam case satisfying EIGH in which the direct beam
+(`M = 1`) scatters into a beam with `M = 2`: `calculate_dynamical_scattering` (`scatter`) returns intensities whose
+flux-weighted sum is one but whose plain sum is `2353/625 ≠ 1`. -/
+theorem scatter_plain_sum_not_one_counterexample :
+    ∃ (M : Fin 2 → ℝ) (A : Matrix (Fin 2) (Fin 2) ℂ) (v : Fin 2 → ℝ) (C : Matrix (Fin 2) (Fin 2) ℂ) (lam t : ℝ) (i0 : Fin 2),
+      Eigh A v C ∧ M i0 = 1 ∧ (∀ i, M i ≠ 0) ∧ wsum M (scatter M v C lam t (Pi.single i0 1)) = 1 ∧
+        sqn (scatter M v C lam t (Pi.single i0 1)) ≠ 1 := by
+  refine ⟨![1, 2], Cw * diagonal (fun k => ((![0, 1] k : ℝ) : ℂ)) * Cwᴴ, ![0, 1], Cw, 1, 1, 0, ?_, by simp, ?_, ?_, ?_⟩
+  · exact ⟨by rw [Cw_conj, Cw_sq], rfl⟩
+  · intro i; fin_cases i <;> simp
+  · have hE : Eigh (Cw * diagonal (fun k => ((![0, 1] k : ℝ) : ℂ)) * Cwᴴ) ![0, 1] Cw := ⟨by rw [Cw_conj, Cw_sq], rfl⟩
+    have hM : ∀ i, (![1, 2] : Fin 2 → ℝ) i ≠ 0 := by intro i; fin_cases i <;> simp
+    rw [direct_beam_weighted_sum_one ![1, 2] hM _ ![0, 1] Cw hE 1 1 0 (by simp)]
+  · -- explicit value of the scattered vector: (-7/25, 48/25)
+    have h0 : phase ![0, 1] 1 1 0 = 1 := by simp [phase, phaseArg, gammaOf]
+    have h1 : phase ![0, 1] 1 1 1 = -1 := by
+      have : phaseArg ((1 : ℝ) : ℂ) ((gammaOf ((![0, 1] : Fin 2 → ℝ) 1) 1 : ℝ) : ℂ) = (Real.pi : ℂ) * I := by
+        simp [phaseArg, gammaOf]; ring
+      rw [phase, this, Complex.exp_pi_mul_I]
+    have hv : scatter ![1, 2] ![0, 1] Cw 1 1 (Pi.single 0 1) = ![(-7 / 25 : ℂ), 48 / 25] := by
+      rw [scatter_steps, Cw_conj]
+      funext g
+      fin_cases g <;>
+        simp [mulVec, dotProduct, Fin.sum_univ_two, h0, h1, Cw, Pi.single_apply] <;> norm_num
+    rw [hv]
+    simp [sqn, Fin.sum_univ_two]
+    norm_num
 
 /-! ### orientation ensembles (eager assembly) -/
 open AbtemVerif.Bloch in
